@@ -598,3 +598,151 @@ Proof.
   split; [apply nonneg_b_sound; vm_compute; reflexivity|]. split; [apply list_perm_b_sound; vm_compute; reflexivity|].
   exists 1%positive. vm_compute. split; [left; reflexivity|]. intros [H|[]]. discriminate.
 Qed.
+
+(* ---------------------------------------------------------------- ranked pairs: the stable double sort *)
+Lemma zeqv_eqb a b : eqv zle_bool a b = (a =? b).
+Proof.
+  destruct (a =? b) eqn:E.
+  - apply zeqv_eq. apply Z.eqb_eq. exact E.
+  - apply not_true_iff_false. intros H. apply zeqv_eq in H. apply Z.eqb_neq in E. contradiction.
+Qed.
+
+Section LEX.
+  Context {X : Type}.
+
+  Lemma SS_filter (R : X -> X -> Prop) (f : X -> bool) l : StronglySorted R l -> StronglySorted R (filter f l).
+  Proof.
+    induction 1 as [|x t Hs IH Hall]; simpl; [constructor|]. destruct (f x); [|exact IH]. constructor; [exact IH|].
+    apply Forall_forall. intros y Hy. apply filter_In in Hy. rewrite Forall_forall in Hall. apply Hall, Hy.
+  Qed.
+
+  Lemma tag_filter (K : X -> Z) k (L : list (X * Z)) : (forall it, In it L -> snd it = K (fst it)) ->
+    map fst (filter (f_level zle_bool k) L) = filter (fun x => K x =? k) (map fst L).
+  Proof.
+    induction L as [|[x kx] L IH]; intros H; [reflexivity|]. cbn [filter map fst]. unfold f_level at 1. cbn [snd].
+    rewrite zeqv_eqb. pose proof (H (x, kx) (or_introl eq_refl)) as E. simpl in E. subst kx.
+    destruct (K x =? k); cbn [map fst]; rewrite IH; try reflexivity; intros it Hit; apply H; right; exact Hit.
+  Qed.
+
+  (* stability: the items with a given key keep their relative order *)
+  Lemma sort_by_stable (K : X -> Z) k m : filter (fun x => K x =? k) (sort_desc_by K m) = filter (fun x => K x =? k) m.
+  Proof.
+    unfold sort_desc_by. set (tag := map (fun x => (x, K x)) m).
+    assert (Ht : forall it, In it tag -> snd it = K (fst it)).
+    { intros it Hit. unfold tag in Hit. apply in_map_iff in Hit. destruct Hit as (y & <- & _). reflexivity. }
+    rewrite <- (tag_filter K k (sort_desc zle_bool tag)).
+    2:{ intros it Hit. apply Ht. apply (Permutation_in _ (sort_desc_perm zle_bool tag)). exact Hit. }
+    rewrite (sort_desc_filter_level zle_bool zle_trans k tag), (tag_filter K k tag Ht).
+    unfold tag. rewrite map_map. simpl. rewrite map_id. reflexivity.
+  Qed.
+
+  Lemma sort_desc_by_ext (K K' : X -> Z) l : (forall x, K x = K' x) -> sort_desc_by K l = sort_desc_by K' l.
+  Proof. intros E. unfold sort_desc_by. rewrite (map_ext (fun x => (x, K x)) (fun x => (x, K' x))); [reflexivity|]. intros x. rewrite E. reflexivity. Qed.
+
+  Variables K1 K2 : X -> Z.
+  Definition lexge (p q : X) : Prop := K2 q < K2 p \/ (K2 q = K2 p /\ K1 q <= K1 p).
+
+  Lemma lex_sorted R : StronglySorted (fun p q => K2 q <= K2 p) R ->
+    (forall k, StronglySorted (fun p q => K1 q <= K1 p) (filter (fun x => K2 x =? k) R)) -> StronglySorted lexge R.
+  Proof.
+    induction 1 as [|x t Hs IH Hall]; intros HF; constructor.
+    - apply IH. intros k. specialize (HF k). simpl in HF. destruct (K2 x =? k); [inversion HF; assumption|exact HF].
+    - apply Forall_forall. intros q Hq. rewrite Forall_forall in Hall. specialize (Hall q Hq). simpl in Hall.
+      destruct (Z.eq_dec (K2 q) (K2 x)) as [E|NE]; [right|left; lia]. split; [exact E|].
+      specialize (HF (K2 x)). simpl in HF. rewrite Z.eqb_refl in HF. inversion HF as [|? ? _ Hf]; subst. rewrite Forall_forall in Hf. apply Hf.
+      apply filter_In. split; [exact Hq|]. apply Z.eqb_eq. exact E.
+  Qed.
+
+  (* sorted(key = votes) then sorted(key = score), both stable: the list is sorted by (score, votes) *)
+  Lemma double_sort_lex l : StronglySorted lexge (sort_desc_by K2 (sort_desc_by K1 l)).
+  Proof. apply lex_sorted; [apply sort_desc_by_sorted|]. intros k. rewrite sort_by_stable. apply SS_filter, sort_desc_by_sorted. Qed.
+
+  Lemma sorted_unique (R : X -> X -> Prop) : forall a b, (forall x y, In x a -> In y a -> R x y -> R y x -> x = y) ->
+    StronglySorted R a -> StronglySorted R b -> Permutation a b -> a = b.
+  Proof.
+    induction a as [|x t IH]; intros b AS Sa Sb P.
+    - apply Permutation_nil in P. subst; reflexivity.
+    - destruct b as [|y t']; [apply Permutation_sym, Permutation_nil in P; discriminate|].
+      inversion Sa as [|? ? Sa' Fa]; subst. inversion Sb as [|? ? Sb' Fb]; subst.
+      assert (Exy : x = y).
+      { assert (Hx : In x (y :: t')) by (apply (Permutation_in _ P); left; reflexivity).
+        assert (Hy : In y (x :: t)) by (apply (Permutation_in _ (Permutation_sym P)); left; reflexivity).
+        destruct Hx as [->|Hx]; [reflexivity|]. destruct Hy as [->|Hy]; [reflexivity|].
+        rewrite Forall_forall in Fa, Fb. apply AS; [left; reflexivity|right; exact Hy|apply Fa, Hy|apply Fb, Hx]. }
+      subst y. f_equal. apply IH; try assumption; [|apply (Permutation_cons_inv P)].
+      intros x' y' Hx' Hy'. apply AS; right; assumption.
+  Qed.
+
+  Lemma double_sort_perm l l' : Permutation l l' -> (forall x y, In x l -> In y l -> K1 x = K1 y -> K2 x = K2 y -> x = y) ->
+    sort_desc_by K2 (sort_desc_by K1 l) = sort_desc_by K2 (sort_desc_by K1 l').
+  Proof.
+    intros P Inj.
+    assert (Pl : forall m, Permutation (sort_desc_by K2 (sort_desc_by K1 m)) m).
+    { intros m. eapply Permutation_trans; apply sort_desc_by_perm. }
+    apply (sorted_unique lexge); try apply double_sort_lex.
+    - intros x y Hx Hy [A|[A1 A2]] [B|[B1 B2]]; try lia. apply Inj; try lia; apply (Permutation_in _ (Pl l)); assumption.
+    - eapply Permutation_trans; [apply Pl|]. eapply Permutation_trans; [exact P|]. apply Permutation_sym, Pl.
+  Qed.
+End LEX.
+
+Fixpoint zz_nodup_b (l : list (Z * Z)) : bool :=
+  match l with
+  | [] => true
+  | x :: t => negb (existsb (fun y => (fst x =? fst y) && (snd x =? snd y)) t) && zz_nodup_b t
+  end.
+
+Lemma zz_nodup_b_sound l : zz_nodup_b l = true -> NoDup l.
+Proof.
+  induction l as [|x t IH]; intros H; [constructor|]. simpl in H. apply andb_true_iff in H. destruct H as [H1 H2].
+  constructor; [|apply IH, H2]. intros Hin. apply negb_true_iff in H1. apply not_true_iff_false in H1. apply H1.
+  apply existsb_exists. exists x. split; [exact Hin|]. rewrite !Z.eqb_refl. reflexivity.
+Qed.
+
+Lemma NoDup_map_inj_in {X Y} (f : X -> Y) l : NoDup (map f l) -> forall x y, In x l -> In y l -> f x = f y -> x = y.
+Proof.
+  induction l as [|a l IH]; intros N x y Hx Hy E; [destruct Hx|]. simpl in N. inversion N as [|? ? Ha Hn]; subst.
+  destruct Hx as [->|Hx], Hy as [->|Hy]; try reflexivity.
+  - exfalso. apply Ha. rewrite E. apply in_map, Hy.
+  - exfalso. apply Ha. rewrite <- E. apply in_map, Hx.
+  - apply IH; assumption.
+Qed.
+
+(* the sort keys (strength under the scorer, votes for the pair) of the ordered pairs are pairwise distinct -
+   the profiles the property quantifies ranked pairs over *)
+Definition rp_distinct_b (s : scorer) (v : pvotes) : bool :=
+  zz_nodup_b (map (fun p => (pget0 (score_pairs s (complete v)) p, pget0 (complete v) p)) (map fst (complete v))).
+
+Theorem rp_pairs_perm s v v' : NoDup (map fst v) -> Permutation v v' -> rp_distinct_b s v = true -> rp_pairs s v' = rp_pairs s v.
+Proof.
+  intros Hnd Hp Hd. unfold rp_pairs. cbv zeta.
+  pose proof (complete_perm v v' Hnd Hp) as Pc. pose proof (complete_keys_nodup v) as Nc.
+  assert (Ns : NoDup (map fst (score_pairs s (complete v)))) by (rewrite score_pairs_keys; exact Nc).
+  rewrite (sort_desc_by_ext (fun p => pget0 (score_pairs s (complete v')) p) (fun p => pget0 (score_pairs s (complete v)) p)).
+  2:{ intros p. apply (pget0_perm _ _ Ns (score_pairs_perm s _ _ Nc Pc)). }
+  rewrite (sort_desc_by_ext (fun p => pget0 (complete v') p) (fun p => pget0 (complete v) p)).
+  2:{ intros p. apply (pget0_perm _ _ Nc Pc). }
+  symmetry. apply double_sort_perm; [apply Permutation_map, Pc|].
+  intros x y Hx Hy E1 E2. unfold rp_distinct_b in Hd. apply zz_nodup_b_sound in Hd.
+  apply (NoDup_map_inj_in _ _ Hd x y Hx Hy). simpl. congruence.
+Qed.
+
+Theorem ranked_pairs_perm s v v' n : NoDup (map fst v) -> Permutation v v' -> rp_distinct_b s v = true ->
+  ranked_pairs s v' n = ranked_pairs s v n.
+Proof. intros Hnd Hp Hd. rewrite !ranked_pairs_unfold, (rp_pairs_perm s v v' Hnd Hp Hd). reflexivity. Qed.
+
+Definition rp_ok_v : pvotes := mk_pv [(1,2,7);(2,1,3);(2,3,6);(3,2,4);(3,1,8);(1,3,2)].
+Example rp_distinct_example : rp_distinct_b WinningVotes rp_ok_v = true /\ rp_distinct_b Margins rp_ok_v = true /\
+  rp_distinct_b PairwiseOpposition rp_ok_v = true /\ ranked_pairs WinningVotes rp_ok_v 3 = CR_ok [Cand 3%positive; Cand 1%positive; Cand 2%positive].
+Proof. vm_compute. repeat split; reflexivity. Qed.
+
+(* with equal strengths the locking order - hence the winner - follows the insertion order: a three-cycle 2:1 *)
+Definition rp_w1 : pvotes := mk_pv [(1,2,2);(2,1,1);(2,3,2);(3,2,1);(3,1,2);(1,3,1)].
+Definition rp_w2 : pvotes := mk_pv [(2,3,2);(3,2,1);(3,1,2);(1,3,1);(1,2,2);(2,1,1)].
+
+Theorem ranked_pairs_order_refuted : exists v v', NoDup (map fst v) /\ (forall p n, In (p, n) v -> 0 <= n) /\ Permutation v v' /\
+  forall s, exists c c', c <> c' /\ ranked_pairs s v 1 = CR_ok [Cand c] /\ ranked_pairs s v' 1 = CR_ok [Cand c'].
+Proof.
+  exists rp_w1, rp_w2. split; [apply nodup_keys_b_sound; vm_compute; reflexivity|].
+  split; [apply nonneg_b_sound; vm_compute; reflexivity|]. split; [apply list_perm_b_sound; vm_compute; reflexivity|].
+  intros s. exists 1%positive, 2%positive. split; [discriminate|]. destruct s; vm_compute; split; reflexivity.
+Qed.
